@@ -315,6 +315,142 @@ class _Simplify(ast.NodeTransformer):
         return keep if keep else ast.Pass()
 
 
+class StructNorm(ast.NodeTransformer):
+    """Precompiled `struct.Struct` objects are rewritten to the equivalent module-level struct calls, multi-field
+    unpacks into one statement per field, `bytearray(struct.pack(...))` into an empty buffer plus an append: the same
+    octets are produced/consumed, in the vocabulary the layout rules read.
+        N = struct.Struct(F)                     (module level, F constant)
+        N.pack(a, ...)            -> struct.pack(F, a, ...)
+        N.unpack(x)               -> struct.unpack(F, x)
+        N.unpack_from(b[, off])   -> struct.unpack(F, b[off:off + calcsize(F)])
+        N.size                    -> calcsize(F)
+        (a, b) = struct.unpack(">BL", m[0:5])   -> a = m[0]; b = struct.unpack(">L", m[1:5])[0]
+        buf = bytearray(struct.pack(F, ...))    -> buf = bytearray(); buf += struct.pack(F, ...)"""
+
+    def __init__(self, tree):
+        self.tree = tree
+        self.structs = {}
+        self.count = 0
+        for st in tree.body:
+            if isinstance(st, ast.Assign) and len(st.targets) == 1 and isinstance(st.targets[0], ast.Name) \
+                    and isinstance(st.value, ast.Call) and ast.unparse(st.value.func) in ("struct.Struct", "Struct") \
+                    and len(st.value.args) == 1 and isinstance(st.value.args[0], ast.Constant) \
+                    and isinstance(st.value.args[0].value, str):
+                self.structs[st.targets[0].id] = st.value.args[0].value
+
+    def run(self):
+        import struct as _st
+        if self.structs:
+            self.visit(self.tree)
+        self.split(self.tree)
+        if self.count:
+            ast.fix_missing_locations(self.tree)
+        return self.count
+
+    def _fmt(self, e):
+        if isinstance(e, ast.Name) and e.id in self.structs:
+            return self.structs[e.id]
+        return None
+
+    def visit_Attribute(self, n):
+        self.generic_visit(n)
+        f = self._fmt(n.value)
+        if f is not None and n.attr == "size" and isinstance(n.ctx, ast.Load):
+            import struct as _st
+            self.count += 1
+            return ast.copy_location(ast.Constant(value=_st.calcsize(f)), n)
+        return n
+
+    def visit_Call(self, n):
+        self.generic_visit(n)
+        if not isinstance(n.func, ast.Attribute):
+            return n
+        f = self._fmt(n.func.value)
+        if f is None or n.keywords:
+            return n
+        import struct as _st
+        S = ast.Attribute(value=ast.Name(id="struct", ctx=ast.Load()), attr=None, ctx=ast.Load())
+        if n.func.attr == "pack":
+            self.count += 1
+            S.attr = "pack"
+            return ast.copy_location(ast.Call(func=S, args=[ast.Constant(value=f)] + list(n.args), keywords=[]), n)
+        if n.func.attr == "unpack" and len(n.args) == 1:
+            self.count += 1
+            S.attr = "unpack"
+            return ast.copy_location(ast.Call(func=S, args=[ast.Constant(value=f), n.args[0]], keywords=[]), n)
+        if n.func.attr == "unpack_from" and len(n.args) in (1, 2):
+            self.count += 1
+            S.attr = "unpack"
+            size = _st.calcsize(f)
+            off = n.args[1] if len(n.args) == 2 else ast.Constant(value=0)
+            if isinstance(off, ast.Constant) and isinstance(off.value, int):
+                lo, hi = ast.Constant(value=off.value), ast.Constant(value=off.value + size)
+            else:
+                lo, hi = off, ast.BinOp(left=_clone(off), op=ast.Add(), right=ast.Constant(value=size))
+            sl = ast.Subscript(value=n.args[0], slice=ast.Slice(lower=lo, upper=hi), ctx=ast.Load())
+            return ast.copy_location(ast.Call(func=S, args=[ast.Constant(value=f), sl], keywords=[]), n)
+        return n
+
+    def split(self, node):
+        import struct as _st
+        for fld in ("body", "orelse", "finalbody"):
+            body = getattr(node, fld, None)
+            if not isinstance(body, list):
+                continue
+            out = []
+            for st in body:
+                if isinstance(st, ast.AST):
+                    self.split(st)
+                new = self._split_stmt(st)
+                out.extend(new)
+            setattr(node, fld, out)
+        if isinstance(node, ast.Try):
+            for h in node.handlers:
+                self.split(h)
+
+    def _split_stmt(self, st):
+        import struct as _st
+        # buf = bytearray(struct.pack(F, ...))
+        if isinstance(st, ast.Assign) and len(st.targets) == 1 and isinstance(st.targets[0], ast.Name) \
+                and isinstance(st.value, ast.Call) and ast.unparse(st.value.func) == "bytearray" and len(st.value.args) == 1 \
+                and isinstance(st.value.args[0], ast.Call) and ast.unparse(st.value.args[0].func) == "struct.pack":
+            self.count += 1
+            a = ast.copy_location(ast.Assign(targets=[st.targets[0]], value=ast.Call(
+                func=ast.Name(id="bytearray", ctx=ast.Load()), args=[], keywords=[])), st)
+            b = ast.copy_location(ast.AugAssign(target=ast.Name(id=st.targets[0].id, ctx=ast.Store()), op=ast.Add(),
+                                                value=st.value.args[0]), st)
+            return [a, b]
+        # (a, b, ...) = struct.unpack(F, X[lo:hi])   with an explicit byte order (no padding)
+        if isinstance(st, ast.Assign) and len(st.targets) == 1 and isinstance(st.targets[0], (ast.Tuple, ast.List)) \
+                and isinstance(st.value, ast.Call) and ast.unparse(st.value.func) == "struct.unpack" \
+                and len(st.value.args) == 2 and isinstance(st.value.args[0], ast.Constant) \
+                and isinstance(st.value.args[0].value, str) and st.value.args[0].value[:1] in "<>!=":
+            fmt = st.value.args[0].value
+            order, codes = fmt[0], fmt[1:]
+            src = st.value.args[1]
+            tg = st.targets[0].elts
+            if len(codes) == len(tg) >= 2 and all(c in "bBhHiIlLqQ" for c in codes) and all(isinstance(t, ast.Name) for t in tg) \
+                    and isinstance(src, ast.Subscript) and isinstance(src.slice, ast.Slice) \
+                    and (src.slice.lower is None or (isinstance(src.slice.lower, ast.Constant) and isinstance(src.slice.lower.value, int))):
+                lo = 0 if src.slice.lower is None else src.slice.lower.value
+                out = []
+                for t, c in zip(tg, codes):
+                    sz = _st.calcsize(order + c)
+                    if c == "B":
+                        val = ast.Subscript(value=_clone(src.value), slice=ast.Constant(value=lo), ctx=ast.Load())
+                    else:
+                        sl = ast.Subscript(value=_clone(src.value), slice=ast.Slice(lower=ast.Constant(value=lo),
+                                                                                  upper=ast.Constant(value=lo + sz)), ctx=ast.Load())
+                        call = ast.Call(func=ast.Attribute(value=ast.Name(id="struct", ctx=ast.Load()), attr="unpack", ctx=ast.Load()),
+                                        args=[ast.Constant(value=order + c), sl], keywords=[])
+                        val = ast.Subscript(value=call, slice=ast.Constant(value=0), ctx=ast.Load())
+                    out.append(ast.copy_location(ast.Assign(targets=[ast.Name(id=t.id, ctx=ast.Store())], value=val), st))
+                    lo += sz
+                self.count += 1
+                return out
+        return [st]
+
+
 class Inliner:
     def __init__(self, modname, tree, path=None):
         self.path = path
